@@ -270,4 +270,232 @@ theorem stmtP_over {len f : Nat} {ts rest : List Token} {s : PStmt} (hT : Tokens
         · rw [if_neg h3] at h; cases h
   · rw [if_neg h0] at h; cases h
 
+/-! ## the parts of one DELETE statement -/
+
+theorem pathTail_end {ids : List PIdent} {p : List Token} (h : PathTailD ids p) :
+    ∀ t : Token, ((identOf t :: ids).getLast?.map (·.nameEnd)).getD 0 = lastEnd (t :: p) := by
+  induction h with
+  | nil => intro t; rfl
+  | @cons d t' ids' ts _ _ _ ih =>
+    intro t
+    rw [List.getLast?_cons_cons, ih t', Query.lastEnd_cons_cons, Query.lastEnd_cons_cons]
+
+/-- `Path` (`TableName`): from the first identifier to the end of the last -/
+theorem pathD_over {ids : List PIdent} {p : List Token} (h : PathD ids p) : Over (posPath ids) (endPath ids) p := by
+  cases h with
+  | @mk t ids' ts ht htl => exact ⟨by simp, rfl, pathTail_end htl t⟩
+
+theorem deleteP_struct {len f pos : Nat} {ts rest : List Token} {s : PStmt} (hT : TokensOK len ts)
+    (h : parseDelete parsePExpr f pos ts = .ok (s, rest)) :
+    ∃ (preF preP preA preW : List Token) (tbl : List PIdent) (al : Option AsAlias) (wh : Where PExpr),
+      s = .delete pos tbl al wh ∧ ts = preF ++ (preP ++ (preA ++ (preW ++ rest))) ∧
+      Over (posPath tbl) (endPath tbl) preP ∧
+      ((al = none ∧ preA = []) ∨ ∃ a, al = some a ∧ Over (posAlias a) (endAlias a) preA) ∧
+      Over (posWhere wh) (endWhere wh) preW := by
+  simp only [parseDelete] at h
+  obtain ⟨preF, hpreF, _⟩ := opt_sound "FROM" ts
+  obtain ⟨n, hn, h⟩ := Res.bind_eq_ok.1 h
+  obtain ⟨preP, hpreP, hdP⟩ := parseIdentOrPath_sound hn
+  by_cases hh : hintAhead n.2 = true
+  · rw [if_pos hh] at h; cases h
+  · rw [if_neg hh] at h
+    obtain ⟨a, ha, h⟩ := Res.bind_eq_ok.1 h
+    obtain ⟨preA, hpreA, hdA⟩ := tryParseAsAlias_sound ha
+    obtain ⟨w, hw, h⟩ := Res.bind_eq_ok.1 h
+    have hts : ts = (preF ++ (preP ++ preA)) ++ a.2 := by rw [hpreF, hpreP, hpreA]; simp
+    obtain ⟨preW, hpreW, hoW⟩ := whereP_over (by rw [hts] at hT; exact hT.suffix) hw
+    obtain ⟨u, _, h⟩ := Res.bind_eq_ok.1 h
+    cases h
+    refine ⟨preF, preP, preA, preW, n.1, a.1, w.1, rfl, by rw [hts, hpreW]; simp, pathD_over hdP, ?_, hoW⟩
+    obtain ⟨a1, a2⟩ := a
+    cases a1 with
+    | none =>
+      left
+      refine ⟨rfl, ?_⟩
+      generalize hx : (none : Option AsAlias) = x at hdA
+      cases hdA with
+      | none => rfl
+      | as_ _ _ => cases hx
+      | bare _ => cases hx
+    | some x =>
+      right
+      obtain ⟨pre', hpre', ho⟩ := aliasP_over ha
+      have : pre' = preA := List.append_cancel_right (hpre'.symm.trans hpreA)
+      exact ⟨x, rfl, this ▸ ho⟩
+
+/-! ## the parts of one UPDATE statement -/
+
+/-- the elements lie over consecutive runs separated by one token (a comma) -/
+inductive RunsOver {α : Type} (posf endf : α → Nat) : List α → List Token → Prop
+  | one {x : α} {p : List Token} : Over (posf x) (endf x) p → RunsOver posf endf [x] p
+  | cons {x : α} {xs : List α} {p q : List Token} {c : Token} :
+      Over (posf x) (endf x) p → RunsOver posf endf xs q → RunsOver posf endf (x :: xs) (p ++ c :: q)
+
+theorem RunsOver.ne {α : Type} {posf endf : α → Nat} {xs : List α} {p : List Token} (h : RunsOver posf endf xs p) : p ≠ [] := by
+  cases h with
+  | one ho => exact ho.1
+  | cons ho _ => simp [ho.1]
+
+/-- `lo ≤ Pos(x₁) < End(x₁) ≤ Pos(x₂) < … ≤ hi` -/
+def chainOK {α : Type} (posf endf : α → Nat) : Nat → List α → Nat → Prop
+  | lo, [], hi => lo ≤ hi
+  | lo, x :: xs, hi => lo ≤ posf x ∧ posf x < endf x ∧ chainOK posf endf (endf x) xs hi
+
+theorem chainOK_lo {α : Type} {posf endf : α → Nat} {lo lo' hi : Nat} (h : lo ≤ lo') :
+    ∀ {xs : List α}, chainOK posf endf lo' xs hi → chainOK posf endf lo xs hi
+  | [], hc => Nat.le_trans h hc
+  | _ :: _, hc => ⟨Nat.le_trans h hc.1, hc.2⟩
+
+/-- on lexer output the elements of consecutive runs are non-empty, ordered and inside the whole run -/
+theorem runs_chain {α : Type} {posf endf : α → Nat} {buf : Bytes} {all : List Token} (hl : Lex.lexAll buf = .ok all)
+    {xs : List α} {pre : List Token} (h : RunsOver posf endf xs pre) :
+    ∀ {l r : List Token}, all = l ++ pre ++ r → r ≠ [] → chainOK posf endf (firstPos pre) xs (lastEnd pre) := by
+  induction h with
+  | @one x p ho =>
+    intro l r hall hr
+    have hf := Query.over_facts hl hall hr ho
+    exact ⟨Nat.le_of_eq ho.2.1.symm, hf.2.2.1, Nat.le_of_eq ho.2.2⟩
+  | @cons x xs p q c ho hq ih =>
+    intro l r hall hr
+    have hqne := hq.ne
+    have hf := Query.over_facts (l := l) (run := p) (r := c :: q ++ r) hl (by rw [hall]; simp) (by simp) ho
+    have hih := ih (l := l ++ p ++ [c]) (r := r) (by rw [hall]; simp) hr
+    have hord := Query.over_ordered (l := l) (c1 := p) (m := [c]) (c2 := q) (r := r) hl (by rw [hall]; simp) ho
+      (⟨hqne, rfl, rfl⟩ : Over (firstPos q) (lastEnd q) q)
+    refine ⟨?_, hf.2.2.1, ?_⟩
+    · rw [Query.firstPos_append ho.1]; exact Nat.le_of_eq ho.2.1.symm
+    · have e : p ++ c :: q = (p ++ [c]) ++ q := by simp
+      rw [e, Query.lastEnd_append hqne]
+      exact chainOK_lo hord hih
+
+theorem itemsP_over {len : Nat} : ∀ (f : Nat) {ts rest : List Token} {us : List (UpdateItem PExpr)}, TokensOK len ts →
+    itemsLoop parsePExpr f ts = .ok (us, rest) → ∃ pre, ts = pre ++ rest ∧ RunsOver posItem endItem us pre
+  | 0, _, _, _, _, h => by simp [itemsLoop] at h
+  | f + 1, ts, rest, us, hT, h => by
+    rw [itemsLoop.eq_2] at h
+    obtain ⟨p, hp, h⟩ := Res.bind_eq_ok.1 h
+    obtain ⟨pre, hpre, ho⟩ := itemP_over hT hp
+    by_cases h1 : cur p.2 = .comma
+    · rw [if_pos h1] at h
+      obtain ⟨c, tl, hc, _⟩ := cur_split h1 (by decide)
+      obtain ⟨q, hq, h⟩ := Res.bind_eq_ok.1 h
+      cases h
+      rw [hc] at hq
+      simp only [List.tail_cons] at hq
+      have hts : ts = (pre ++ [c]) ++ tl := by rw [hpre, hc]; simp
+      obtain ⟨pre2, hpre2, ho2⟩ := itemsP_over f (by rw [hts] at hT; exact hT.suffix) hq
+      exact ⟨pre ++ c :: pre2, by rw [hts, hpre2]; simp, .cons ho ho2⟩
+    · rw [if_neg h1] at h
+      cases h
+      exact ⟨pre, hpre, .one ho⟩
+
+theorem updateP_struct {len f pos : Nat} {ts rest : List Token} {s : PStmt} (hT : TokensOK len ts)
+    (h : parseUpdate parsePExpr f pos ts = .ok (s, rest)) :
+    ∃ (preP preA preU preW : List Token) (st : Token) (tbl : List PIdent) (al : Option AsAlias)
+      (us : List (UpdateItem PExpr)) (wh : Where PExpr),
+      s = .update pos tbl al us wh ∧ ts = preP ++ (preA ++ (st :: (preU ++ (preW ++ rest)))) ∧
+      Over (posPath tbl) (endPath tbl) preP ∧
+      ((al = none ∧ preA = []) ∨ ∃ a, al = some a ∧ Over (posAlias a) (endAlias a) preA) ∧
+      RunsOver posItem endItem us preU ∧ Over (posWhere wh) (endWhere wh) preW := by
+  unfold parseUpdate at h
+  obtain ⟨n, hn, h⟩ := Res.bind_eq_ok.1 h
+  obtain ⟨preP, hpreP, hdP⟩ := parseIdentOrPath_sound hn
+  by_cases hh : hintAhead n.2 = true
+  · rw [if_pos hh] at h; cases h
+  · rw [if_neg hh] at h
+    obtain ⟨a, ha, h⟩ := Res.bind_eq_ok.1 h
+    obtain ⟨preA, hpreA, hdA⟩ := tryParseAsAlias_sound ha
+    by_cases hs : kd a.2 = K "SET"
+    · rw [if_pos hs] at h
+      obtain ⟨st, tl, hst, _⟩ := kd_split hs
+      obtain ⟨us, hus, h⟩ := Res.bind_eq_ok.1 h
+      rw [hst] at hus
+      simp only [List.tail_cons] at hus
+      have hts0 : ts = (preP ++ (preA ++ [st])) ++ tl := by rw [hpreP, hpreA, hst]; simp
+      obtain ⟨preU, hpreU, hoU⟩ := itemsP_over f (by rw [hts0] at hT; exact hT.suffix) hus
+      obtain ⟨w, hw, h⟩ := Res.bind_eq_ok.1 h
+      have hts : ts = (preP ++ (preA ++ st :: preU)) ++ us.2 := by rw [hts0, hpreU]; simp
+      obtain ⟨preW, hpreW, hoW⟩ := whereP_over (by rw [hts] at hT; exact hT.suffix) hw
+      obtain ⟨u, _, h⟩ := Res.bind_eq_ok.1 h
+      cases h
+      refine ⟨preP, preA, preU, preW, st, n.1, a.1, us.1, w.1, rfl, by rw [hts, hpreW]; simp, pathD_over hdP, ?_, hoU, hoW⟩
+      obtain ⟨a1, a2⟩ := a
+      cases a1 with
+      | none =>
+        left
+        refine ⟨rfl, ?_⟩
+        generalize hx : (none : Option AsAlias) = x at hdA
+        cases hdA with
+        | none => rfl
+        | as_ _ _ => cases hx
+        | bare _ => cases hx
+      | some x =>
+        right
+        obtain ⟨pre', hpre', ho⟩ := aliasP_over ha
+        have : pre' = preA := List.append_cancel_right (hpre'.symm.trans hpreA)
+        exact ⟨x, rfl, this ▸ ho⟩
+    · rw [if_neg hs] at h; cases h
+
+/-! ## the parts of one INSERT statement -/
+
+theorem rowsP_over {len : Nat} : ∀ (f : Nat) {ts rest : List Token} {rs : List (ValuesRow PExpr)}, TokensOK len ts →
+    rowsLoop parsePExpr f ts = .ok (rs, rest) → ∃ pre, ts = pre ++ rest ∧ RunsOver posRow endRow rs pre
+  | 0, _, _, _, _, h => by simp [rowsLoop] at h
+  | f + 1, ts, rest, rs, hT, h => by
+    rw [rowsLoop.eq_2] at h
+    obtain ⟨p, hp, h⟩ := Res.bind_eq_ok.1 h
+    obtain ⟨pre, hpre, ho⟩ := rowP_over hT hp
+    by_cases h1 : cur p.2 = .comma
+    · rw [if_pos h1] at h
+      obtain ⟨c, tl, hc, _⟩ := cur_split h1 (by decide)
+      obtain ⟨q, hq, h⟩ := Res.bind_eq_ok.1 h
+      cases h
+      rw [hc] at hq
+      simp only [List.tail_cons] at hq
+      have hts : ts = (pre ++ [c]) ++ tl := by rw [hpre, hc]; simp
+      obtain ⟨pre2, hpre2, ho2⟩ := rowsP_over f (by rw [hts] at hT; exact hT.suffix) hq
+      exact ⟨pre ++ c :: pre2, by rw [hts, hpre2]; simp, .cons ho ho2⟩
+    · rw [if_neg h1] at h
+      cases h
+      exact ⟨pre, hpre, .one ho⟩
+
+theorem insertP_struct {len f pos : Nat} {ts rest : List Token} {s : PStmt} (hT : TokensOK len ts)
+    (h : parseInsert parsePExpr f pos ts = .ok (s, rest)) :
+    ∃ (pre0 preP preC preR : List Token) (v : Token) (ot : InsertOrType) (tbl cs : List PIdent)
+      (rs : List (ValuesRow PExpr)),
+      s = .insert pos ot tbl cs ⟨v.pos, rs⟩ ∧ ts = pre0 ++ (preP ++ (preC ++ (v :: (preR ++ rest)))) ∧
+      Over (posPath tbl) (endPath tbl) preP ∧ preC ≠ [] ∧ RunsOver posRow endRow rs preR := by
+  unfold parseInsert at h
+  obtain ⟨o, ho, h⟩ := Res.bind_eq_ok.1 h
+  obtain ⟨preO, hpreO, _⟩ := parseInsertOr_sound ho
+  obtain ⟨preI, hpreI, _⟩ := opt_sound "INTO" o.2
+  simp only at h
+  obtain ⟨n, hn, h⟩ := Res.bind_eq_ok.1 h
+  obtain ⟨preP, hpreP, hdP⟩ := parseIdentOrPath_sound hn
+  by_cases hh : hintAhead n.2 = true
+  · rw [if_pos hh] at h; cases h
+  · rw [if_neg hh] at h
+    obtain ⟨c, hc, h⟩ := Res.bind_eq_ok.1 h
+    obtain ⟨preC, hpreC, hdC⟩ := parseColumns_sound hc
+    by_cases hv : kwLike "VALUES" c.2 = true
+    · rw [if_pos hv] at h
+      obtain ⟨vi, hv2, h⟩ := Res.bind_eq_ok.1 h
+      obtain ⟨u, _, h⟩ := Res.bind_eq_ok.1 h
+      cases h
+      unfold parseValuesInput at hv2
+      rw [if_pos hv] at hv2
+      obtain ⟨v, tl, hvt, _⟩ := kwLike_split hv
+      obtain ⟨q, hq, hv2⟩ := Res.bind_eq_ok.1 hv2
+      cases hv2
+      rw [hvt] at hq
+      simp only [List.tail_cons] at hq
+      have hts : ts = ((preO ++ preI) ++ (preP ++ (preC ++ [v]))) ++ tl := by rw [hpreO, hpreI, hpreP, hpreC, hvt]; simp
+      obtain ⟨preR, hpreR, hoR⟩ := rowsP_over f (by rw [hts] at hT; exact hT.suffix) hq
+      refine ⟨preO ++ preI, preP, preC, preR, v, o.1, n.1, c.1, q.1, ?_, by rw [hts, hpreR]; simp, pathD_over hdP, ?_, hoR⟩
+      · rw [hvt]; rfl
+      · generalize c.1 = ids at hdC
+        cases hdC <;> simp
+    · rw [if_neg hv] at h
+      split at h <;> cases h
+
 end MF.DML
